@@ -110,7 +110,7 @@ prop("C16", [("R35b", misc.r35b_specside), ("R41", misc.r41_masktruth)], "R35b/R
 from .rules import buffer  # noqa: E402
 
 prop("C11", [("R27", buffer.r27_interp), ("R26", buffer.r26_buffer), ("R21", buffer.r21_evict), ("R04", buffer.r04_cmp), ("R22", spill.r22_pack)], "pending text")
-prop("C09", [("R21", buffer.r21_evict)], "pending text")
+prop("C09", [("R21", buffer.r21_evict), ("R25", spill.r25_spillwire), ("R23", spill.r23_spillfree)], "pending text")
 prop("C08", [("R17", buffer.r17_nearest), ("R04", buffer.r04_cmp), ("R19", grid.r19_taxis)], "pending text")
 PROPS["C20"]["rules"].append(("R39", buffer.r39_static))
 
@@ -127,3 +127,11 @@ from .rules import connect  # noqa: E402
 
 prop("C06", [("R11", connect.r11_r12_connect), ("R13", connect.r13_nodata), ("R14", connect.r14_doublepush),
              ("R10", life.r10_stall), ("R10b", life.r10b_mustconnect), ("R06", life.r06_life)], "pending text")
+
+from .rules import integ  # noqa: E402
+
+prop("C12", [("R29", integ.r29_integ), ("R28", integ.r28_dim), ("R26", buffer.r26_buffer), ("R22", spill.r22_pack)], "pending text")
+
+from .rules import valid  # noqa: E402
+
+prop("C19", [("R38", valid.r38_valid), ("R06", life.r06_life)], "pending text")
